@@ -69,8 +69,13 @@ func (a AddressDecMap) Encode(w stdio.Writer) error {
 		return errors.WithMessage(err, "encoding map length")
 	}
 
-	for i, addr := range a {
-		id := int(i)
+	ids := make([]int, 0, len(a))
+	for i := range a {
+		ids = append(ids, int(i))
+	}
+	sort.Ints(ids) // Fixed order, so that the encoding is deterministic.
+	for _, id := range ids {
+		i, addr := wallet.BackendID(id), a[wallet.BackendID(id)]
 		if id < math.MinInt32 || id > math.MaxInt32 {
 			return errors.New("map index out of bounds")
 		}
